@@ -81,6 +81,7 @@ PROPERTY FailedKeeps
   MaxCap = {p['maxcap']}
   MaxDepth = {p['maxdepth']}
   MaxOut = {p.get('maxout', 2)}
+  MaxReloads = {p.get('maxreloads', 1)}
   NPARTS = {nparts}
   PART = {part}
 INIT Init
@@ -147,6 +148,22 @@ class Ctx:
         if o[0] == "exp":
             return f.expand()
 
+    def reload(self, f, c, channel):
+        """export + load; what the format does not store (hash function, fingerprint width, expansion settings) is re-supplied"""
+        hf = make_hash(self.p["fp"], fmap(c["alt"]))
+        if channel == "file":
+            path = os.path.join(self.tmp, "rl.cko")
+            f.export(path)
+            g = self.cls.load_error_rate(self.p["er"], path, hash_function=hf) if self.p.get("er") else self.cls(filepath=path, hash_function=hf)
+        else:
+            data = bytes(f)
+            g = self.cls.frombytes(data, error_rate=self.p["er"], hash_function=hf) if self.p.get("er") else self.cls.frombytes(data, hash_function=hf)
+        if not self.p.get("er"):
+            g.fingerprint_size = self.p.get("finger_size", 4)
+        g.auto_expand = f.auto_expand
+        g.expansion_rate = f.expansion_rate
+        return g
+
     def source(self, c, hist):
         key = repr((c, hist))
         got = self.cache.get(key)
@@ -155,7 +172,10 @@ class Ctx:
         f = self.make(c)
         for o, ch in hist:
             try:
-                self.apply(f, o, ch)
+                if o[0] == "rt":
+                    f = self.reload(f, c, o[1])
+                else:
+                    self.apply(f, o, ch)
             except self.Full:
                 pass
             except Exception:
@@ -204,7 +224,15 @@ class Ctx:
         raised = None
         ret = None
         try:
-            ret = self.apply(f, o, ch)
+            if o[0] == "rt":
+                self.script.load([])
+                try:
+                    f = self.reload(f, c, o[1])
+                except Exception as exc:  # noqa
+                    t.fail("C05", "C05.load_raises", ENGINE, rp(raised=repr(exc)), sig)
+                    return
+            else:
+                ret = self.apply(f, o, ch)
         except self.Full as exc:
             raised = exc
         except Exception as exc:  # noqa
@@ -248,6 +276,9 @@ class Ctx:
             else:
                 t.check(after["n"] == stored, "C14", "C14.count.cuckoo", ENGINE, lambda: rp2(expected_n=stored), sig)
                 t.check(after["lf"] == after["n"] / (after["cap"] * self.p["bs"]), "C14", "C14.load_factor.cuckoo", ENGINE, rp2, sig)
+        if o[0] == "rt":
+            t.check(after["check"] == before["check"] and after["in"] == before["in"], "C05", "C05.queries.cuckoo", ENGINE, rp2, dict(sig, channel=o[1]))
+            t.check((after["cap"], after["n"], after["uniq"]) == (before["cap"], before["n"], before["uniq"]), "C05", "C05.geometry.cuckoo", ENGINE, rp2, dict(sig, channel=o[1]))
         # C14 self-consistency with the public table, also after a failed add
         bins = [b for bk in after["tbl"] for b in bk]
         if self.counting:
